@@ -79,3 +79,46 @@ package l1
 //@   loop 1: invariant nonnil: forall k uint64 :: in(c.nonFinalisedLogs, k) ==> c.nonFinalisedLogs[k] != nil
 //@   loop 1: invariant lockstep: received(updateCh) - old(received(updateCh)) == calls_applyStateUpdate - old(calls_applyStateUpdate)
 //@   ensures lockstep: received(updateCh) - old(received(updateCh)) == calls_applyStateUpdate - old(calls_applyStateUpdate)
+
+// ---- "finalised" means finalised: the L1 block the head is measured against -----------------------
+// FinalisedHeight asks the L1 node for the block tagged gethFinalizedBlockNumber, and the package
+// initialiser sets that variable to geth's "finalized" tag (-3) - not "safe" (-4) or "latest" (-2).
+//@ extern func github.com/ethereum/go-ethereum/rpc.(BlockNumber).Int64
+//@   ensures result == int64(bn)
+//@ extern func math/big.(*Int).SetInt64
+//@   ensures result == z
+//@ func init
+//@   props C17
+//@   arith int
+//@   nosafe
+//@   modifies *
+//@   callsite SetInt64@*: the_finalized_tag: $1 == -3
+//@ extern func github.com/ethereum/go-ethereum/ethclient.(*Client).HeaderByNumber
+//@ func (*GethL1StateProvider).FinalisedHeight
+//@   props C17
+//@   arith int
+//@   nosafe
+//@   requires s != nil && s.ethClient != nil
+//@   modifies *
+//@   callsite HeaderByNumber@*: the_finalised_block: $2 == gethFinalizedBlockNumber
+
+// ---- the forwarder hands on every event it receives (removed logs included) -----------------------
+// A log that a reorg removes arrives as an event with Raw.Removed set; the client needs it to drop
+// the buffered state update. The forwarding task (the closure given to event.NewSubscription)
+// decodes every event it receives from the geth subscription - none is filtered out - before it
+// receives the next one.
+//@ func stateUpdateFromGethContract
+//@   trusted
+//@   logged as Decode
+//@   ensures result != nil
+//@ extern func github.com/ethereum/go-ethereum/event.Subscription.Unsubscribe
+//@ extern func github.com/ethereum/go-ethereum/event.Subscription.Err
+//@ func forwardStateUpdates$1
+//@   props C17
+//@   arith int
+//@   nosafe
+//@   requires *gethEventsCh != nil
+//@   modifies *
+//@   assigns calls_Decode, arg_Decode_ev
+//@   loop 1: invariant every_event_decoded: received(*gethEventsCh) - old(received(*gethEventsCh)) == calls_Decode - old(calls_Decode)
+//@   ensures every_event_decoded: received(*gethEventsCh) - old(received(*gethEventsCh)) == calls_Decode - old(calls_Decode)
